@@ -142,6 +142,7 @@ def build_host(m):
         rel(lsc, lfsc, 1503)
         if gname in prev_syc:
             rel(prev_syc[gname], syc, 1505, 'precedes')
+            assert syc.Previous_Const_ID == prev_syc[gname].Const_ID, 'host: R1505 chained the wrong way'
         prev_syc[gname] = syc
 
     # -- classes ----------------------------------------------------------------------
@@ -385,6 +386,7 @@ class Analysis(object):
         self.n_statements = 0
         self.max_depth = 0
         self.selected = []          # stack of classes `selected` refers to
+        self.qualified = []         # (enumerator | constant, namespace, name) of every qualified read, in source order
         root = printed.expected['fields']['block']
         self.block(root, None, False, 1)
 
@@ -768,15 +770,26 @@ class Analysis(object):
 
     def e_EnumOrNamedConstantNode(self, e, scope):
         ns, name = self.f(e, 'namespace'), self.f(e, 'name')
-        if ns == ENUM[0] and name in ENUM[1]:
-            e['claim'] = 'enumerator'
-            self.features.add('enumerator')
-            return ENUM[0]
-        if ns == CONSTANT[0] and name == CONSTANT[1]:
-            e['claim'] = 'constant'
-            self.features.add('constant')
-            return CONSTANT[2]
+        for ename, enumerators in ENUMS:
+            if ns == ename and name in enumerators:
+                e['claim'] = 'enumerator'
+                self.features.add('enumerator')
+                self.qualified_read('enumerator', ns, name)
+                return ename
+        for gname, cname, cty, _ in CONSTANTS:
+            if ns == gname and name == cname:
+                e['claim'] = 'constant'
+                self.features.add('constant')
+                self.qualified_read('constant', ns, name)
+                return cty
         raise IllFormed('unknown enumerator or constant')
+
+    def qualified_read(self, what, ns, name):
+        '''Record NS::name; mark bodies that read one name in two namespaces (in this order of kinds).'''
+        for what0, ns0, name0 in self.qualified:
+            if name0 == name and ns0 != ns:
+                self.features.add('same-name:%s-then-%s' % (what0, what))
+        self.qualified.append((what, ns, name))
 
     def e_UnaryOperationNode(self, e, scope):
         op = self.f(e, 'operator')
@@ -909,12 +922,12 @@ def ASSIGN(lhs, rhs, explicit=False):
     return ('assign', V(lhs) if isinstance(lhs, str) else lhs, rhs, explicit)
 
 
-PRELUDE_ORDER = ['a', 'a2', 'b', 'c', 'aset', 'bset', 'i', 'j', 'r', 's', 't', 'e', 'v', 'w']
+PRELUDE_ORDER = ['a', 'a2', 'b', 'c', 'aset', 'bset', 'i', 'j', 'r', 's', 't', 'e', 'v', 'w', 'md']
 PRELUDE = {
     'a': ('create', 'a', 'A'), 'a2': ('create', 'a2', 'A'), 'b': ('create', 'b', 'B'), 'c': ('create', 'c', 'C'),
     'aset': ('selfrom', 'many', 'aset', 'A', None, True), 'bset': ('selfrom', 'many', 'bset', 'B', None, True),
     'i': ASSIGN('i', I(1)), 'j': ASSIGN('j', I(2)), 'r': ASSIGN('r', ('real', '1.5')), 's': ASSIGN('s', ('str', 's')),
-    't': ASSIGN('t', ('bool', 'true')), 'e': ASSIGN('e', ('enum', 'Color', 'Red')),
+    't': ASSIGN('t', ('bool', 'true')), 'e': ASSIGN('e', ('enum', 'Color', 'Red')), 'md': ASSIGN('md', ('enum', 'Mode', 'Off')),
     'v': ASSIGN(('index', V('v'), I(2)), I(0)), 'w': ASSIGN(('index', ('index', V('w'), I(1)), I(1)), I(0)),
 }
 
@@ -1078,6 +1091,8 @@ def translate(host, home, text, entry='action'):
 def case_of(task, **extra):
     c = dict(family=task['family'], stmts=task['stmts'], home=task['home'], entry=task.get('entry', 'action'),
              layout=task.get('layout', 'default'))
+    if task.get('history'):
+        c['history'] = task['history']          # what the process did before this translation: part of the case
     c.update(extra)
     return c
 
@@ -1092,6 +1107,9 @@ LAYOUTS = {
     'default': None,                                   # one line, single spaces
     'lines': 'lines',                                  # line break and two spaces of indentation after every ';'
     'spread': 'spread',                                # every gap is a line break followed by one space
+    'upper': 'upper',                                  # one line, every keyword in UPPER case
+    'cap': 'cap',                                      # one line, every keyword Capitalised
+    'mixed': 'mixed',                                  # one line, every keyword in aLtErNaTiNg case
 }
 
 
@@ -1107,6 +1125,8 @@ def layout_of(printed, name):
         return oalast.Layout(gaps=gaps, lead='\n')
     if name == 'spread':
         return oalast.Layout(default='\n ')
+    if name in ('upper', 'cap', 'mixed'):
+        return oalast.Layout(kwcase=lambda kind, n: name)
     raise ValueError(name)
 
 
@@ -1257,6 +1277,8 @@ def hang_or_crash(ctx, prop, task, res):
 
 def record_coverage(ctx, task, an, ok):
     key = (repr(task['stmts']), task['home'])
+    if task.get('history'):
+        key += (repr(task['history']),)
     ctx.distinct('states', key)
     ctx.distinct('programs', repr(task['stmts']))
     ctx.distinct('home:' + task['home'], repr(task['stmts']))
@@ -1789,6 +1811,50 @@ def family_nesting(tier):
     return progs
 
 
+def qualified_names():
+    '''Every enumerator and every constant of the host as a qualified read.'''
+    return [('enum', ename, n) for ename, ns in ENUMS for n in ns] + [('enum', g, c) for g, c, _, _ in CONSTANTS]
+
+
+def family_names(tier):
+    '''Qualified names (NS::name) whose unqualified part is shared between namespaces: every ordered pair of
+    enumerator / constant reads in one body (two statements), and pairs sharing a name inside one expression, across
+    nested blocks, in a where clause and its body, and as parameter values of one call.'''
+    Q = qualified_names()
+    progs = []
+    for q1 in Q:
+        for q2 in Q:
+            progs.append([ASSIGN('x', q1), ASSIGN('y', q2)])
+    CR, MR, LR = ('enum', 'Color', 'Red'), ('enum', 'Mode', 'Red'), ('enum', 'L', 'Red')
+    KT, LT = ('enum', 'K', 'TEN'), ('enum', 'L', 'TEN')
+    MO = ('enum', 'Mode', 'Off')
+    shared = [(CR, MR), (MR, CR), (CR, LR), (LR, CR), (MR, LR), (LR, MR), (KT, LT), (LT, KT)]
+    var_of = {'Color': V('e'), 'Mode': V('md'), 'K': V('i'), 'L': V('i')}
+
+    def test(q):
+        '''A boolean expression reading q.'''
+        if q == LT:
+            return BIN('==', V('s'), q)
+        return BIN('==', var_of[q[1]], q)
+    for q1, q2 in shared:
+        progs.append([ASSIGN('x', BIN('and', test(q1), test(q2)))])
+        progs.append([('if', test(q1), [ASSIGN('y', q2)], [], [ASSIGN('y', q2), ASSIGN('z', q1)], [False])])
+        progs.append([('if', V('t'), [ASSIGN('x', q1)], [(test(q2), [ASSIGN('y', q2)])], None, [False, False]), ASSIGN('z', q1)])
+        progs.append([('while', test(q1), [ASSIGN('y', q2), ('break',)], False), ASSIGN('z', q2)])
+        progs.append([('foreach', 'k', 'aset', [ASSIGN('x', q1)], False), ASSIGN('y', q2), ASSIGN('z', q1)])
+        progs.append([ASSIGN('x', q1), ('return', q2)])
+    for q1, q2 in ((CR, MR), (MR, CR)):
+        w = BIN('==', F(SEL, 'Col'), CR)
+        progs.append([('selfrom', 'any', 'n', 'A', w, True), ASSIGN('y', MR)] if q1 == CR else
+                     [ASSIGN('y', MR), ('selfrom', 'many', 'n', 'A', w, True)])
+        progs.append([ASSIGN(F('a', 'Col'), CR), ASSIGN('y', MR)] if q1 == CR else [ASSIGN('y', MR), ASSIGN(F('a', 'Col'), CR)])
+    # same-named constants of different types as the two parameter values of one call, both orders of writing
+    progs.append([('call', None, ('ncall', 'EE', 'b', [('p', KT), ('q', LT)]))])
+    progs.append([('call', None, ('ncall', 'EE', 'b', [('q', LT), ('p', KT)]))])
+    progs.append([ASSIGN('x', ('ncall', 'EE', 'b', [('p', LR), ('q', LT)])), ASSIGN('y', MR), ASSIGN('z', KT)])
+    return progs
+
+
 def home_params(stmts, home):
     '''Replace the parameter placeholders $0, $1 by the names of the home's parameters.'''
     ps = HOME_PARAMS[home]
@@ -1818,6 +1884,7 @@ def all_tasks(tier, seed=0):
     seqs, seq_bounds = family_sequences(tier)
     fams.append(('sequences', seqs))
     fams.append(('nesting', family_nesting(tier)))
+    fams.append(('names', family_names(tier)))
     tasks = []
     seen = set()
     counts = {}
@@ -1839,7 +1906,11 @@ def all_tasks(tier, seed=0):
                   sequence_bounds=[dict(length=n, menu=w) for n, w in seq_bounds],
                   control_flow_nesting=2 if tier == 'quick' else 3,      # blocks inside blocks below the body
                   expression_depth=3 if tier == 'quick' else 4,
-                  chain_steps=2 if tier == 'quick' else 3, homes=HOMES)
+                  chain_steps=2 if tier == 'quick' else 3, homes=HOMES,
+                  qualified_names=dict(enumerations=dict(ENUMS), constants=['%s::%s (%s)' % c[:3] for c in CONSTANTS],
+                                       pairs='every ordered pair of the %d qualified names read in one body; pairs sharing their '
+                                             'unqualified name also inside one expression, across nested blocks, where clause / body, '
+                                             'parameters of one call' % len(qualified_names())))
     return tasks, bounds
 
 
@@ -1890,8 +1961,15 @@ class Walk(object):
         if sig in self.reported:
             return
         self.reported.add(sig)
+        hist = self.task.get('history')
+        after = ''
+        if hist:
+            sig = 'after-history:' + sig
+            after = ', after %s' % '; '.join('%s of %r (%s)' % (how, (REJECTED_TEXTS if exp == 'rejected' else ACCEPTED_TEXTS)[name], exp)
+                                             for how, exp, name in hist)
         self.sub.violation('c06:' + sig, case_of(self.task),
-                           '%s  [program %r, %s home, layout %s]' % (message, self.text, self.task['home'], self.task.get('layout', 'default')),
+                           '%s  [program %r, %s home, layout %s%s]' % (message, self.text, self.task['home'],
+                                                                        self.task.get('layout', 'default'), after),
                            expected, observed, unit_test(self.text, self.task['home']))
 
     def check(self, ok, sig, message, expected=None, observed=None):
@@ -2245,13 +2323,90 @@ class Walk(object):
             self.params(e, self.navn(x, 'V_PAR', INVOCATION_VAL[e['kind']][1]))
 
 
+# keywords whose spelling the parser hands on to the translator (operator, cardinality, boolean value, self as an
+# instance name): the case of the others never leaves the parser
+SPELLED_THROUGH = set('NOT EMPTY NOT_EMPTY CARDINALITY AND OR TRUE FALSE ANY MANY ONE SELF'.split())
+
+
+def spells_keywords_through(stmts):
+    '''Does the program (as given, without prelude) contain a keyword whose spelling reaches the translator?'''
+    from mc.refs import oalast
+    return any(t.kw in SPELLED_THROUGH for t in oalast.print_program(stmts).toks)
+
+
+# Action texts the parser rejects (ParseException), the offending token on line 1, 2, 4, at the end of input, and
+# behind a comment spanning lines; and one well-formed text of several lines.
+REJECTED_TEXTS = {
+    'line-1': 'x = ;',
+    'line-2': 'x = 1;\ny = ;',
+    'line-4': 'x = 1;\n\n\nselect any from;',
+    'end-of-input': 'if ( true )\n  x = 1;\n',
+    'after-comment': '/* c\n c */\nx = 1;\nreturn return;',
+}
+ACCEPTED_TEXTS = {
+    'three-lines': 'x = 1;\ny = 2;\nz = 3;',
+}
+
+
+def histories():
+    '''What the process did before the translation under test: lists of steps [how, expected outcome, text name].
+    how = parse (bridgepoint.oal.parse) | prebuild (prebuild_action of the text placed in the home of the task).
+    Every single step, and every pair of rejected parses among two of the texts.'''
+    out = []
+    for name in sorted(REJECTED_TEXTS):
+        out.append([['parse', 'rejected', name]])
+        out.append([['prebuild', 'rejected', name]])
+    for name in sorted(ACCEPTED_TEXTS):
+        out.append([['parse', 'accepted', name]])
+    for n1 in ('line-2', 'end-of-input'):
+        for n2 in ('line-2', 'end-of-input'):
+            out.append([['parse', 'rejected', n1], ['prebuild', 'rejected', n2]])
+    return out
+
+
+def apply_history(sub, host, home, history):
+    '''Run the steps; returns None when each had the expected outcome and left no action instance behind, else the
+    reason the run cannot be judged.'''
+    import bridgepoint
+    from bridgepoint import oal
+    inst = host.homes[home]
+    for how, expect, name in history:
+        text = REJECTED_TEXTS[name] if expect == 'rejected' else ACCEPTED_TEXTS[name]
+        try:
+            if how == 'parse':
+                oal.parse(text)
+            else:
+                inst.Action_Semantics_internal = text
+                inst.Suc_Pars = 1
+                bridgepoint.prebuild_action(inst)
+            outcome = 'accepted'
+        except oal.ParseException:
+            outcome = 'rejected'
+        except Exception as e:
+            outcome = 'raised %s' % type(e).__name__
+        if outcome != expect:
+            return '%s of %r was %s, expected to be %s' % (how, text, outcome, expect)
+        sub.count('history_steps')
+    left = [k for k in sorted(host.m.metaclasses) if k.startswith(DUMP_PREFIXES) and host.m.select_any(k) is not None]
+    if left:
+        return 'the rejected texts left instances behind: %s' % left
+    return None
+
+
 def c06_child(sub, host, task):
-    '''Child: translate, then check the population.'''
+    '''Child: (history, then) translate, then check the population.'''
     import bridgepoint
     from mc.refs import oalast
     full, printed, an = complete(task['stmts'], task['home'])
     text, spans = oalast.assemble(printed, layout_of(printed, task.get('layout')))
     case = case_of(task)
+    if task.get('history'):
+        why = apply_history(sub, host, task['home'], task['history'])
+        if why is not None:
+            sub.count('history_not_judged')
+            sub.cap('a history run could not be judged: %s' % why)
+            return True
+        sub.count('history_runs')
     inst = host.homes[task['home']]
     inst.Action_Semantics_internal = text
     inst.Suc_Pars = 1
